@@ -137,7 +137,7 @@ def run_config(ctx, rep, cfg):
                                       "%s discards the buffered %d-block batch (offset := %d) but leaves the lane counters advanced: the next keystream block is E(c+%d) where the generic back end gives E(c+1)" %
                                       (name.split("_ctr_")[-1], b.lanes, b.batch, b.lanes), cfg=cn)
     # ---- R3 CTR batch encryptors: keystream block b from counter lane b only (optimised IR)
-    ship = ctx.prog(cfg, "ship")
+    ship = ctx.prog(cfg, "shipinl")
     nlane = 0
     for b in backends:
         if b.lanes == 1:
